@@ -155,6 +155,9 @@ def run(ctx, R, tier):
     rate_rule(F, R)
     chunk_lookup(F, R)
     header_sized(F, R)
+    # 'after any sequence of seeks': a relative seek starts from the published playback position, which is published at full width
+    from .c05 import published_width
+    published_width(F, R, rule='B.C18.published', fn_filter=lambda q: 'sound::' in q, floor=6)
     # streaming yields the frames the decoder produced: silence only past the end of the audio (the C09 rule)
     from .c09 import frame_source, sib_data
     frame_source(F, R)
@@ -175,6 +178,16 @@ def rate_rule(F, R):
     for bb, si, s in nb.stmts():
         if s['k'] == 'assign' and s['rv']['k'] == 'agg' and s['rv'].get('adt') == SD:
             init = describe(nb, s['rv']['ops'][s['rv']['fields'].index('sample_rate')], depth=8, at=bb)
+    # the length a streaming decoder reports is the frame count encoded in the file, taken over as an integer (a detour
+    # through seconds in floating point and back loses a frame for some lengths: the stream then ends one frame early)
+    ninit = None
+    for bb, si, s in nb.stmts():
+        if s['k'] == 'assign' and s['rv']['k'] == 'agg' and s['rv'].get('adt') == SD and 'num_frames' in s['rv']['fields']:
+            ninit = describe(nb, s['rv']['ops'][s['rv']['fields'].index('num_frames')], depth=12, at=bb)
+    import re as _re
+    R.check(ninit is not None and 'codec_params.n_frames' in ninit and not _re.search(r'\b(Mul|Div|Add|Sub)\(|calc_time|f64|f32', ninit), 'B.C18.rate', 'frames-init',
+            'the decoder\'s num_frames field is initialised from %s, not from the codec parameters\' n_frames converted as an integer' % (ninit or '?')[:160],
+            detail={'init': (ninit or '')[:160]})
     R.check(init is not None and 'sample_rate' in init and 'codec_params' in init, 'B.C18.rate', 'init',
             'the decoder\'s sample_rate field is initialised from %s, not from the codec parameters\' sample_rate' % init, detail={'init': (init or '')[:140]})
 
